@@ -1,6 +1,6 @@
 (* C14 — Close waits for the reads and writes sent before it. Theorems only; proofs in Proofs/PktMgrP.v *)
 From Coq Require Import List Bool Arith.
-From Sftp Require Import Sched.PktMgr Proofs.PktMgrP.
+From Sftp Require Import Sched.PktMgr Sched.PktTrace Proofs.PktMgrP Proofs.PktMgrLiveP Proofs.PktTraceP.
 Import ListNotations.
 
 (* for every pipeline depth, number of handles and relative speed of the pool workers and the command worker: while a
@@ -26,6 +26,22 @@ Qed.
 Print Assumptions C14_idle_means_answered.
 
 (* without the barrier the property fails: the same model with the wait removed lets a CLOSE overtake a READ *)
+(* the barrier never wedges the server: a reachable state with work left can always take a step of the server's own
+   goroutines (a CLOSE waiting at the barrier is released by the workers finishing), and then everything is answered *)
+Theorem C14_barrier_no_wedge : forall tr s, run init tr = Some s -> quiescent s = false ->
+  exists l s', internal l = true /\ step s l = Some s'.
+Proof. exact progress. Qed.
+Print Assumptions C14_barrier_no_wedge.
+
+(* ===== the tie to packet-manager.go: trace acceptance (family pmt) =====
+   `accept_trace` replays the recorded events; a D event of a CLOSE is accepted only when the model's in-flight counter
+   is zero (step Dispatch), i.e. when every F of an earlier request precedes it in the trace. *)
+Theorem C14_accepted_trace_in_order : forall tr s owed,
+  accept_raw tr = inl (s, owed) ->
+  inv1 s /\ emitted s = es_of tr ++ owed /\ es_of tr = seq 1 (length (es_of tr)).
+Proof. exact accepted_raw_in_order. Qed.
+Print Assumptions C14_accepted_trace_in_order.
+
 Example C14_nonvacuous :
   run init [Arrive KRW; Arrive KRW; Arrive KClose; Dispatch; Dispatch; Dispatch] = None /\
   (exists s, run init [Arrive KRW; Arrive KRW; Arrive KClose; Dispatch; Dispatch; FinishRW 2; FinishRW 1; Dispatch] = Some s /\
